@@ -118,7 +118,7 @@ func TestVFC01Runtime(t *testing.T) {
 					kinds = append(kinds, "toggle_block", "toggle_block", "toggle_block", "repoint_block", "rewrite_source", "refresh")
 				}
 				if len(c.Allow) > 0 {
-					kinds = append(kinds, "toggle_allow", "toggle_allow", "rewrite_source", "refresh")
+					kinds = append(kinds, "toggle_allow", "toggle_allow", "rewrite_source", "refresh", "repoint_allow")
 				}
 				if c.Client != nil {
 					kinds = append(kinds, "client_update", "client_update_rejected")
@@ -185,38 +185,50 @@ func TestVFC01Runtime(t *testing.T) {
 					}
 				case "refresh":
 					refresh(len(c.Block) == 0 || (len(c.Allow) > 0 && rapid.Bool().Draw(t, label+"_allowlist")))
-				case "repoint_block":
+				case "repoint_block", "repoint_allow":
 					// the list gets another source (a new URL) with other rules,
 					// possibly none at all
-					i := rapid.IntRange(0, len(w.blockURLs)-1).Draw(t, label+"_list")
+					allow := kind == "repoint_allow"
+					urls, lists, src, on := w.blockURLs, c.Block, srcBlock, c.BlockOn
+					if allow {
+						urls, lists, src, on = w.allowURLs, c.Allow, srcAllow, c.AllowOn
+					}
+					i := rapid.IntRange(0, len(urls)-1).Draw(t, label+"_list")
 					nr := rapid.SampledFrom([]int{0, 0, 1, 2, 3}).Draw(t, label+"_n_rules")
 					var rs []vfRule
 					for j := 0; j < nr; j++ {
-						rs = append(rs, vfDrawRule(t, c.Subjects, fmt.Sprintf("%s_r%d", label, j), false, c.Client, c.Core))
+						rs = append(rs, vfDrawRule(t, c.Subjects, fmt.Sprintf("%s_r%d", label, j), allow, c.Client, c.Core))
 					}
 					repoints++
-					newURL := filepath.Join(filepath.Dir(w.blockURLs[i]), fmt.Sprintf("repointed-%d-%d.txt", i, repoints))
+					newURL := filepath.Join(filepath.Dir(urls[i]), fmt.Sprintf("repointed-%d-%d.txt", i, repoints))
 					if werr := os.WriteFile(newURL, []byte(strings.Join(vfTexts(rs), "\n")+"\n"), 0o644); werr != nil {
 						t.Fatalf("VERIF-INCONCLUSIVE writing list source: %v", werr)
 					}
 					b, _ := json.Marshal(map[string]any{
-						"url": w.blockURLs[i], "whitelist": false,
-						"data": map[string]any{"name": fmt.Sprintf("list %d", i), "url": newURL, "enabled": c.BlockOn[i]},
+						"url": urls[i], "whitelist": allow,
+						"data": map[string]any{"name": fmt.Sprintf("list %d", i), "url": newURL, "enabled": on[i]},
 					})
 					rec := httptest.NewRecorder()
 					handlers["POST /control/filtering/set_url"](rec, httptest.NewRequest(http.MethodPost, "/control/filtering/set_url", bytes.NewReader(b)))
 					if rec.Code == http.StatusOK {
 						// the names of the rules that have gone are worth asking for
 						c.focus = nil
-						for _, r := range c.Block[i] {
+						for _, r := range lists[i] {
 							c.focus = append(c.focus, r.Domain)
 						}
-						c.Block[i], srcBlock[i] = rs, rs
-						w.blockURLs[i] = newURL
-						vfC01.Class(fmt.Sprintf("rt:repoint_block:accepted:rules=%d", nr))
+						// a list that is switched off is read when it is switched on
+						src[i] = rs
+						if on[i] {
+							lists[i] = rs
+						}
+						urls[i] = newURL
+						vfC01.Class(fmt.Sprintf("rt:%s:accepted:rules=%d", kind, nr))
+						if !on[i] {
+							vfC01.Class("rt:repoint_of_disabled_list")
+						}
 					} else {
 						// a refused edit leaves the list as it was
-						vfC01.Class("rt:repoint_block:refused")
+						vfC01.Class("rt:" + kind + ":refused")
 					}
 					lastToggled = ""
 				case "client_update", "client_update_rejected":
